@@ -113,6 +113,10 @@ mod time_cache;
 mod topic;
 mod transform;
 mod types;
+#[cfg(libp2p_verif)]
+pub mod verif;
+#[cfg(libp2p_verif)]
+pub mod verif_pure;
 
 #[cfg(feature = "metrics")]
 pub use metrics::Config as MetricsConfig;
